@@ -69,6 +69,12 @@ func (s *Translator) translateWith() error {
 			currentPart.projections.Constraints = resolvedConstraint
 		}
 
+		// Projecting a binding makes this WITH's frame its last projection. That must not take effect while
+		// the items are still being rendered: a later item that reads the same binding again - `with n, n as m`,
+		// or a path together with one of its nodes, `with n, p` - must read it from the frame that
+		// materialized it before this WITH, not from the frame that is being defined.
+		var materializations []func()
+
 		for idx, projectionItem := range currentPart.projections.Items {
 			switch typedSelectItem := projectionItem.SelectItem.(type) {
 			case pgsql.CompoundIdentifier:
@@ -128,8 +134,10 @@ func (s *Translator) translateWith() error {
 						currentPart.projections.Items[idx].Alias = pgsql.AsOptionalIdentifier(projectedBinding.Identifier)
 					}
 
-					// Assign the frame to the binding's last projection backref
-					projectedBinding.MaterializedBy(currentPart.Frame)
+					// Assign the frame to the binding's last projection backref once every item is rendered
+					materializations = append(materializations, func() {
+						projectedBinding.MaterializedBy(currentPart.Frame)
+					})
 
 					// Reveal and export the identifier in the current multipart query part's frame
 					currentPart.Frame.Reveal(projectedBinding.Identifier)
@@ -159,6 +167,10 @@ func (s *Translator) translateWith() error {
 					}
 				}
 			}
+		}
+
+		for _, materialize := range materializations {
+			materialize()
 		}
 
 		if !aggregatedItems.IsEmpty() {
